@@ -425,7 +425,39 @@ impl<'tcx> Cx<'tcx> {
         }
     }
 
+    /// For a fieldless enum type (or a reference to one): the variant whose discriminant equals `tag`.
+    fn enum_variant_j(&self, ty: Ty<'tcx>, tag: u128) -> Option<J> {
+        let inner = match ty.kind() {
+            ty::Ref(_, inner, _) => *inner,
+            _ => ty,
+        };
+        if let ty::Adt(def, _) = inner.kind() {
+            if def.is_enum() && def.variants().iter().all(|v| v.fields.is_empty()) {
+                for (vidx, d) in def.discriminants(self.tcx) {
+                    if d.val == tag {
+                        return Some(J::obj(vec![
+                            ("k", J::s("enum")),
+                            ("adt", J::Str(self.tcx.def_path_str(def.did()))),
+                            ("variant", J::Str(def.variant(vidx).name.to_string())),
+                            ("discr", J::Int(tag as i128)),
+                        ]));
+                    }
+                }
+            }
+        }
+        None
+    }
+
     fn bytes_j(&self, bytes: Vec<u8>, ty: Ty<'tcx>) -> J {
+        if bytes.len() <= 16 && !bytes.is_empty() {
+            let mut tag: u128 = 0;
+            for (i, b) in bytes.iter().enumerate() {
+                tag |= (*b as u128) << (8 * i);
+            }
+            if let Some(j) = self.enum_variant_j(ty, tag) {
+                return j;
+            }
+        }
         let is_str = match ty.kind() {
             ty::Ref(_, inner, _) => inner.is_str(),
             _ => false,
@@ -443,6 +475,9 @@ impl<'tcx> Cx<'tcx> {
             ConstValue::ZeroSized => J::obj(vec![("k", J::s("zst"))]),
             ConstValue::Scalar(Scalar::Int(si)) => {
                 let size = si.size();
+                if let Some(j) = self.enum_variant_j(ty, si.to_bits(size)) {
+                    return j;
+                }
                 self.scalar_int_j(si.to_bits(size), size.bytes(), ty)
             }
             ConstValue::Scalar(Scalar::Ptr(ptr, _)) => {
@@ -452,6 +487,11 @@ impl<'tcx> Cx<'tcx> {
                 let want_len = match ty.kind() {
                     ty::Ref(_, inner, _) => match inner.kind() {
                         ty::Array(_, n) => n.try_to_target_usize(self.tcx),
+                        ty::Adt(def, _) if def.is_enum() => self
+                            .tcx
+                            .layout_of(TypingEnv::fully_monomorphized().as_query_input(*inner))
+                            .ok()
+                            .map(|l| l.size.bytes()),
                         _ => None,
                     },
                     _ => None,
